@@ -1,5 +1,197 @@
 import NibabelModel.Model.C09
-/-! Props/C09 — the property theorems for C09 (statements + proofs; helper lemmas live in Lemmas/). -/
+import NibabelModel.Lemmas.C09
+import NibabelModel.Generated.C09
+/-! Props/C09 — any load / modify / save history leaves correct files and a live process.
+
+  Vocabulary (definitions in Lemmas/C09.lean):
+  * `WF s`        : no file of the abstract file system is left truncated, and the live image (if any) is usable:
+                    its proxy's source file is intact, has the layout the proxy was built with and holds the data
+                    the image had when it was loaded (`ImgOk`); an owning fdata cache holds the same data;
+  * `StepSpec`    : the op did not crash (`≠ .bad`); a `save q` wrote EXACTLY the image state — data and affine the
+                    image has at that step — to `q`, changed no other path, and left the image's state alone; every
+                    other op leaves the file system untouched;
+  * `Usable s`    : the end-of-history probe (`get_fdata()`, then `np.asanyarray(img.dataobj)`) succeeds and returns
+                    the data the image was loaded with;
+  * `allowed` / `allowedRun` : THE GUARD — a save onto the live image's OWN source path keeps the on-disk layout
+                    (dtype, scaling) the proxy was built with.  Every other op and every other save is allowed.
+
+  ONE live image per history (a `load` replaces it); fresh verification loads are `load` on the resulting file system.
+
+  FULL STATEMENT (not provable for the code as it is — see `current_stale_source_counterexample`):
+      theorem history_safe (s : St) (hw : WF s) (ops : List Op) : Safe s ops
+  The guard `allowedRun s ops` is what is missing: after `set_data_dtype` + save onto the image's own source file the
+  live image keeps an ArrayProxy (and possibly a float64 memmap fdata cache) built for the OLD layout of that file
+  (open findings `stale-proxy-…` / `stale-fdata-memmap-…`).  The FILES written are correct without the guard
+  (`save_writes_image_state`).
+-/
 namespace Nb.C09
+
+/-- the initial file system of the harness: six files, file i holds data i / affine i, given dtypes -/
+def fs0 (dts : Path → DT) : FS := fun p =>
+  some (.intact { data := (Path.all.idxOf p), aff := (Path.all.idxOf p), dt := dts p, scaled := false, tag := 0 })
+
+theorem fs0_wf (dts : Path → DT) : WF ⟨fs0 dts, none⟩ :=
+  ⟨fun p => by simp [fs0], fun im h => by simp at h⟩
+
+/-- ONE STEP, any op, any well-formed state: no crash, the save wrote the image state and nothing else, the
+    invariant is re-established and the image is usable afterwards. -/
+theorem step_safe (s : St) (op : Op) (hw : WF s) (ha : allowed s op = true) :
+    StepSpec s op (step false s op) ∧ WF (step false s op).2 ∧ Usable (step false s op).2 :=
+  let h := step_safe_aux s op hw ha
+  ⟨h.1, h.2, usable_of_WF h.2⟩
+
+example : ∃ s op, WF s ∧ allowed s op = true ∧ s.img.isSome ∧ op = .save .aNii :=
+  ⟨(step false ⟨fs0 fun _ => .i16, none⟩ (.load .aNii true)).2, .save .aNii,
+   (step_safe _ _ (fs0_wf _) rfl).2.1, by decide, by decide, rfl⟩
+
+/-- HISTORIES of any length (induction over the op list): from a well-formed state, under the guard, no step
+    crashes, every save writes exactly the image state at that step to its target and touches no other path, and
+    the image is usable after every step and at the end.  `_partial`: the guard `allowedRun` (see file header). -/
+theorem history_safe_partial (s : St) (hw : WF s) (ops : List Op) (ha : allowedRun s ops = true) : Safe s ops :=
+  safe_of_WF ops s hw ha
+
+/-- non-vacuity: a 9-step history with self-overwrites of a memory-mapped source, saves to several destinations,
+    class conversions NIfTI→MGH→pair and a dtype change that is saved elsewhere satisfies the guard -/
+example : allowedRun ⟨fs0 fun _ => .i16, none⟩
+    [.load .aNii true, .fdata, .save .aNii, .save .aMgz, .setDt .f32, .save .bNii, .save .aImg, .load .aMgz true,
+     .save .aMgz] = true := by decide
+
+/-- the executable history runner (the function the driver prints) agrees: under the guard it never emits `bad`,
+    produces one outcome per op, and ends in a well-formed state -/
+theorem run_never_bad (s : St) (hw : WF s) (ops : List Op) (ha : allowedRun s ops = true) :
+    (∀ o ∈ (run false s ops).1, o ≠ .bad) ∧ (run false s ops).1.length = ops.length ∧
+      ∃ f, (run false s ops).2 = some f ∧ WF f :=
+  run_ok ops s hw ha
+
+/-- WITHOUT the guard: every save (also a layout-changing save onto the image's own memory-mapped source) writes
+    a file that a fresh load decodes to the data and the affine the image had at that save. -/
+theorem save_writes_image_state (s : St) (hw : WF s) (im : Img) (hi : s.img = some im) (q : Path) (mm : Bool) :
+    (step false s (.save q)).1 = .saved (savedContent im q) ∧
+    ∃ im2, load (step false s (.save q)).2.fs q mm = some im2 ∧ im2.data = im.data ∧ im2.aff = im.aff ∧
+      im2.cls = q.cls ∧ ∀ p, p ≠ q → (step false s (.save q)).2.fs p = s.fs p := by
+  obtain ⟨fs, img⟩ := s
+  simp only at hi
+  subst hi
+  have hok : ImgOk fs im := hw.2 im rfl
+  simp only [step, withImg, save_cur hok]
+  refine ⟨trivial, ?_⟩
+  simp only [load, FS.set_same]
+  exact ⟨_, rfl, rfl, rfl, rfl, fun p hp => FS.set_other _ _ hp⟩
+
+example : ∃ s im, WF s ∧ s.img = some im ∧ im.mapped = true :=
+  ⟨(step false ⟨fs0 fun _ => .f32, none⟩ (.load .aImg true)).2, _, (step_safe _ _ (fs0_wf _) rfl).2.1, rfl, by decide⟩
+
+/-! ### the repaired defect -/
+
+/-- ORIGINAL logic (no copy of the memmap before the target is opened 'wb'): `nib.save(nib.load('a.nii'), 'a.nii')`
+    reads its data through the truncated file. -/
+theorem orig_self_overwrite_crashes :
+    (run true ⟨fs0 fun _ => .i16, none⟩ [.load .aNii true, .save .aNii]).1 = [.loadOk, .bad] := by decide
+
+/-- … and so does EVERY self-overwrite of a memory-mapped source in any well-formed state (all of `.nii`, `.img`,
+    `.mgh`; compressed names and `mmap=False` are not `mapped`). -/
+theorem orig_self_overwrite_crashes_all_plain (s : St) (hw : WF s) (im : Img) (hi : s.img = some im)
+    (hm : im.mapped = true) : (step true s (.save im.src)).1 = .bad := by
+  obtain ⟨fs, img⟩ := s
+  simp only at hi
+  subst hi
+  have hb := writeTo_orig_self (hw.2 im rfl) hm
+  simp only [step, withImg, save]
+  revert hb
+  generalize writeTo true fs im im.src = r
+  obtain ⟨o, fs'⟩ := r
+  intro hb
+  simp only at hb
+  subst hb
+  rfl
+
+example : ∃ s im, WF s ∧ s.img = some im ∧ im.mapped = true ∧ im.src = .aMgh :=
+  ⟨(step false ⟨fs0 fun _ => .i16, none⟩ (.load .aMgh true)).2, _, (step_safe _ _ (fs0_wf _) rfl).2.1, rfl,
+   by decide, rfl⟩
+
+/-- CURRENT logic on the same histories: the self-overwrite succeeds and writes the image state. -/
+theorem current_self_overwrite_ok (s : St) (hw : WF s) (im : Img) (hi : s.img = some im) :
+    (step false s (.save im.src)).1 = .saved (savedContent im im.src) :=
+  (save_writes_image_state s hw im hi im.src true).1
+
+/-- the original logic was wrong ONLY there: off the image's own source it coincides with the current logic -/
+theorem orig_safe_off_source (s : St) (hw : WF s) (im : Img) (hi : s.img = some im) (q : Path) (hq : q ≠ im.src) :
+    (step true s (.save q)).1 = (step false s (.save q)).1 ∧
+    (step true s (.save q)).2.fs = (step false s (.save q)).2.fs := by
+  obtain ⟨fs, img⟩ := s
+  simp only at hi
+  subst hi
+  simp only [step, withImg, save, writeTo_orig_off_source (hw.2 im rfl) hq]
+  exact ⟨trivial, trivial⟩
+
+example : ∃ s im q, WF s ∧ s.img = some im ∧ q ≠ im.src :=
+  ⟨(step false ⟨fs0 fun _ => .i16, none⟩ (.load .aNii true)).2, _, .bNii, (step_safe _ _ (fs0_wf _) rfl).2.1, rfl,
+   by decide⟩
+
+/-! ### what the current code still does wrong (open findings; why the guard is needed) -/
+
+/-- `img = load('a.nii')  # int16;  img.set_data_dtype(int32);  save(img, 'a.nii');  img.get_fdata()` — the file
+    written is right, the live image reads it through its stale proxy. -/
+theorem current_stale_source_counterexample :
+    (run false ⟨fs0 fun _ => .i16, none⟩ [.load .aNii false, .setDt .i32, .save .aNii, .fdata]).1 =
+      [.loadOk, .dtOk, .saved { data := 0, aff := 0, dt := .i32, scaled := false, tag := 0 }, .bad] ∧
+    allowedRun ⟨fs0 fun _ => .i16, none⟩ [.load .aNii false, .setDt .i32, .save .aNii, .fdata] = false := by
+  decide
+
+/-- float64 + mmap: the cached `get_fdata()` array IS the memmap of the source; after a dtype-changing self-save
+    it maps a shorter, re-laid-out file (SIGBUS in the real process). -/
+theorem current_stale_fdata_alias_counterexample :
+    (run false ⟨fs0 fun _ => .f64, none⟩ [.load .aNii true, .fdata, .setDt .i16, .save .aNii, .fdata]).1 =
+      [.loadOk, .fdata 0, .dtOk, .saved { data := 0, aff := 0, dt := .i16, scaled := true, tag := 0 }, .bad] := by
+  decide
+
+/-- the guard is TIGHT: a save onto the image's own source that changes the layout always leaves the live image
+    unusable (whatever its cache state) — this is exactly the open finding, nothing else is excluded. -/
+theorem guard_is_tight (s : St) (hw : WF s) (im : Img) (hi : s.img = some im) (hk : layoutKept im im.src = false) :
+    probe (step false s (.save im.src)).2 = none := by
+  obtain ⟨fs, img⟩ := s
+  simp only at hi
+  subst hi
+  have hok : ImgOk fs im := hw.2 im rfl
+  have hne : ¬ ((outHeader im im.src).1 = im.srcDt ∧ outScaled im im.src = im.srcScaled) := by
+    intro h
+    simp [layoutKept, h.1, h.2] at hk
+  have hrl : ∀ im' : Img, im'.src = im.src → im'.srcDt = im.srcDt → im'.srcScaled = im.srcScaled →
+      readLayout (fs.set im.src (some (.intact (savedContent im im.src)))) im'.src im'.srcDt im'.srcScaled = none := by
+    intro im' h1 h2 h3
+    rw [h1, h2, h3]
+    simp only [readLayout, FS.set_same, savedContent]
+    rw [if_neg hne]
+  simp only [step, withImg, save_cur hok]
+  have key : ∀ im' : Img, im'.src = im.src → im'.srcDt = im.srcDt → im'.srcScaled = im.srcScaled →
+      probe ⟨fs.set im.src (some (.intact (savedContent im im.src))), some im'⟩ = none := by
+    intro im' h1 h2 h3
+    have hr := hrl im' h1 h2 h3
+    have hmat : materialise (fs.set im.src (some (.intact (savedContent im im.src)))) im' = none := by
+      simp [materialise, hr]
+    unfold probe getFdata
+    cases hc : im'.cache <;> simp [hc, hmat, hr]
+  by_cases hc : im.src.cls = im.cls
+  · simp only [hc, if_true]; exact key _ rfl rfl rfl
+  · simp only [hc, if_false]; exact key _ rfl rfl rfl
+
+example : ∃ s im, WF s ∧ s.img = some im ∧ layoutKept im im.src = false :=
+  ⟨(step false (step false ⟨fs0 fun _ => .i16, none⟩ (.load .aNii true)).2 (.setDt .i32)).2, _,
+   (step_safe _ _ (step_safe _ _ (fs0_wf _) rfl).2.1 rfl).2.1, rfl, by decide⟩
+
+/-! ### tables regenerated from the working tree -/
+
+def clsCode : Cls → Nat
+  | .nifti1 => 0 | .pair => 1 | .mgh => 2
+
+def allDT : List DT := [.u8, .i16, .i32, .f32, .f64]
+
+/-- the model's class-by-extension table, its "compressed, never mapped" predicate and the MGH dtype set are the
+    ones extracted from the source on this run; both `to_file_map` bodies copy a memmap BEFORE the first 'wb' open
+    (the order `writeTo false` models). -/
+theorem generated_tables_agree :
+    Gen.pathTable = Path.all.map (fun p => (clsCode p.cls, p.compressed)) ∧
+    Gen.mghDtypes = (List.range 5).filter (fun i => (allDT[i]?.map mghOk) == some true) ∧
+    Gen.analyzeCopiesBeforeOpen = true ∧ Gen.mghCopiesBeforeOpen = true := by decide
 
 end Nb.C09
